@@ -16,10 +16,12 @@ RULE = ("T05: the real ObjectFile writer is executed on a sample object with one
         "objects, same attribute sets and values, canonical encoding, no other files; after each restart the objects are looked up again and read through the API. "
         "K05-fixture: a token directory written by the library built from the PINNED commit (fixtures/file-v1: 2 tokens, 111 objects of every class, 0-byte and 300 kB "
         "values, nested templates, mechanism sets, dates, a changed PIN) is opened by today's library: all four PINs log in, a wrong one does not, every object is found "
-        "and read with the recorded values; the Lean decoder decodes the fixture independently. thorough adds the SQLite backend (API level).")
+        "and read with the recorded values; the Lean decoder decodes the fixture independently. thorough adds the SQLite backend (API level). K05-faults: for 16 mutating calls (the scene of C16) every libc file-system operation of the call is made to FAIL once "
+        "(ENOSPC/EIO by interposition); a fresh process then opens the directory: a call that answered CKR_OK must have persisted its effect (recovered = state after the call), a call "
+        "that answered an error must not have destroyed committed data (recovered = state before or after).")
 TRUSTED = ["C++ harness p11drv (directory dump by plain file reads; process restart by exec)", "python generators",
            "Lean reference SHA-256 / AES-256-CBC (validated against FIPS vectors and against the token's own PIN blobs on every run)"]
-ASSUMPTIONS = ["no file-system faults in these suites (the fault and crash schedules are C16's)", "SQLite's own file format and durability are trusted, not modelled",
+ASSUMPTIONS = ["process death inside a call is C16's; here: every single file-system operation of a call failing once (K05-faults)", "SQLite's own file format and durability are trusted, not modelled",
                "the fixture has no CKA_START_DATE/CKA_END_DATE on private objects: the pinned version cannot read those back itself (known_findings.txt, C06 f4d12d5)"]
 
 
@@ -45,8 +47,84 @@ def run_k(ctx, kres):
     if not ctx.quick and ctx.stamp["variants"].get("db", {}).get("ok"):
         def nodump(t): return "\n".join(l for l in t.split("\n") if l != "dumpdir")
         dbt = [Trace("persist-db%d" % i, nodump(gen.persist_history(ctx.seed * 104729 + i, tables, 60)), variant="db", backend="db") for i in range(100)]
-        v += k_suite(ctx, kres, "K05-persist-sqlite", dbt, in_projection, sig_of=sig_of)
+        # the SQLite backend answers some calls differently from the file backend (C20 reports those); what C05 asks of it is persistence: what is found after a restart
+        v += k_suite(ctx, kres, "K05-persist-sqlite", dbt, lambda m: m["op"] in ("findinit", "find") and m["cat"] in ("nums", "rvclass"), sig_of=sig_of)
+    v += fault_suite(ctx, kres)
     return v
+
+
+FAULT_QUICK = ["create-small-private", "setattr-label-private-key", "destroy-key", "copy-big", "setpin-user"]
+
+
+def fault_suite(ctx, kres):
+    """every file-system operation of a mutating call FAILS once (disk full / I/O error): a call that answers CKR_OK must have persisted its effect; a call that
+    answers an error must not have destroyed what was committed before"""
+    import concurrent.futures, collections, json
+    from .. import crash
+    setup, names = crash.scene()
+    scen = [s[0] for s in crash.scenarios(names) if not s[0].startswith("login") and s[0] != "logout"]
+    if ctx.quick: scen = [s for s in scen if s in FAULT_QUICK]
+    kres["suites"] += 1
+    def go(nm):
+        run = crash.run_scenario(nm, None, None, mode="fail")
+        out = []
+        if run.get("error"): return nm, run, out
+        pts = run["results"]
+        if ctx.quick and len(pts) > 60:
+            keep = {}
+            for r in pts:
+                if r["k"] <= 30: keep[r["k"]] = r
+                else: keep.setdefault((r["after"], r["before"]), r)
+            pts = list(keep.values())
+        for r in pts:
+            ok, which, detail = crash.judge_point(run, r)
+            out.append((r, which, detail))
+        return nm, run, out
+    viols = {}; table = {}
+    with concurrent.futures.ThreadPoolExecutor(max_workers=8) as ex:
+        for nm, run, pts in ex.map(go, scen):
+            if run.get("error"):
+                viols["fault:%s:harness" % nm] = Violation("fault:%s:harness" % nm, "fault scenario %s could not be run: %s" % (nm, run["error"]), "{}", False); continue
+            row = collections.Counter()
+            for r, which, detail in pts:
+                kres["evaluations"] += 1
+                rv = r["call_result"].split()[1] if r["call_result"] else "died"
+                cls = None
+                if rv == "0" and which != "S1": cls = "ok-not-persisted"
+                elif rv != "0" and which not in ("S0", "S1"): cls = "error-but-destroyed"
+                row["%s/rv=%s/%s" % (r["before"], rv, which)] += 1
+                key = "fault:%s:%s:%s" % (nm, r["before"], "ok" if rv == "0" else "err")
+                kres["hist"][key] = kres["hist"].get(key, 0) + 1
+                if cls:
+                    sig = "fault:%s:%s" % (nm, cls)
+                    if sig not in viols:
+                        viols[sig] = Violation(sig, "failure of file-system operation %d (%s) of `%s`: the call answered %s, the token directory afterwards is %s: %s" %
+                                               (r["k"], r["before"], run["call"][:90], "CKR_OK" if rv == "0" else "rv=" + rv,
+                                                "not the state after the call" if rv == "0" else "neither the state before nor after the call (committed data destroyed)", detail[:700]),
+                                               "## fault scenario=%s k=%d\n" % (nm, r["k"]) + "\n".join(run["pre"] + [run["call"]]) + "\n")
+            table[nm] = {"fs_ops": run["n_ops"], "points": len(pts), "outcomes": dict(row)}
+    kres["notes"].append("fault table: " + json.dumps(table))
+    return list(viols.values())
+
+
+def replay(ctx, path):
+    import re
+    from .. import crash
+    from ..main import replay as generic
+    text = open(path).read()
+    m = re.search(r"## fault scenario=(\S+) k=(\d+)", text)
+    if not m:
+        import types
+        return generic(types.SimpleNamespace(judge=judge), ctx, path)
+    name, k = m.group(1), int(m.group(2))
+    run = crash.run_scenario(name, None, None, mode="fail", points={k})
+    r = run["results"][0]
+    ok, which, detail = crash.judge_point(run, r)
+    rv = r["call_result"].split()[1] if r["call_result"] else "died"
+    print("scenario %s: `%s`; file-system operation %d (%s) fails; the call answers rv=%s; recovered state: %s %s" % (name, run["call"], k, r["before"], rv, which, detail[:600]))
+    bad = (rv == "0" and which != "S1") or (rv != "0" and which not in ("S0", "S1"))
+    print("JUDGEMENT: %s" % ("violates C05" if bad else "no violation of C05 at this point"))
+    return 1 if bad else 0
 
 
 def judge(ctx, results):
